@@ -86,6 +86,10 @@ def decide(c, sub=None, atoms=None, oracle=None, conds=None):
                 pick = lambda cs: decide(conds[cs], sub, atoms, oracle, conds) if cs in conds else None
                 a = resolve_ite(a, pick) if hasattr(a, "args") else a
                 b = resolve_ite(b, pick) if hasattr(b, "args") else b
+                if oracle is not None and (a is not c[1] or b is not c[2]):
+                    o = oracle((op, a, b))
+                    if o is not None and o[0] in atoms:
+                        return atoms[o[0]] == o[1]
             a, b = subst(a, sub), subst(b, sub)
             return sign_cmp(op, a, b)
         return None
